@@ -455,3 +455,44 @@ Proof.
   split; [discriminate|]. split; [reflexivity|].
   intros [rest H]. discriminate H.
 Qed.
+
+(* ---- exhaust(): the loop ends because read() returned nothing (fuel is never the reason),
+   and leaves the stream at eof *)
+Lemma WPost_src_split cl data st b st' :
+  WInv cl data st -> WPost cl data st b st' -> s_data (w_src st) = b ++ s_data (w_src st').
+Proof.
+  intros ((c & D & L) & _) (_ & (c' & D' & L') & _).
+  rewrite D in D'. apply app_eq_length in D' as [_ E]; [exact E|].
+  apply len_eq_length. lia.
+Qed.
+
+Lemma exhaust_loop_done cl data chunk : (chunk = -1 \/ 0 < chunk) -> forall fuel st d st',
+  WInv cl data st -> (length (s_data (w_src st)) < fuel)%nat ->
+  w_exhaust_loop true fuel chunk st = (d, st') -> w_rem st' = 0.
+Proof.
+  intros Hc. induction fuel as [|f IH]; intros st d st' I F H; [lia|].
+  cbn [w_exhaust_loop] in H.
+  destruct (w_read true (Some chunk) st) as [c st1] eqn:R.
+  assert (SO : size_ok (Some chunk) = true) by (apply Z.leb_le; lia).
+  destruct (read_with_post cl data _ _ st c st1 src_read_ok I SO R) as (P1 & _ & E1).
+  destruct c as [|x c0]; cbn [nonempty] in H.
+  - injection H as <- <-. apply E1; [reflexivity|]. cbn.
+    destruct Hc as [-> | Hc]; [reflexivity|]. destruct (Z.ltb_spec 0 chunk); [|lia].
+    apply orb_true_r.
+  - destruct (w_exhaust_loop true f chunk st1) as [cs st2] eqn:L. injection H as <- <-.
+    apply (IH st1 cs st2 (proj1 P1)); [|exact L].
+    pose proof (WPost_src_split _ _ _ _ _ I P1) as SP. rewrite SP in F.
+    rewrite app_length in F. cbn [length] in F. lia.
+Qed.
+
+Theorem wsgi_exhaust_reaches_eof cl data caps ops chunk r st' :
+  0 <= cl -> forallb wop_ok ops = true -> (chunk = -1 \/ 0 < chunk) ->
+  let st0 := w_init cl (src0 data caps) in
+  wstep true (WExhaust chunk) (wend (wrun true ops st0) st0) = (r, st') -> w_eof st' = true.
+Proof.
+  intros Hcl Hops Hc st0 S.
+  destruct (hist_post cl data caps ops Hcl Hops) as (I & _). fold st0 in I.
+  cbn [wstep] in S. destruct (w_exhaust true chunk _) as [d st1] eqn:X. injection S as <- <-.
+  unfold w_exhaust in X. unfold w_eof. apply Z.leb_le.
+  rewrite (exhaust_loop_done cl data chunk Hc _ _ _ _ I (Nat.lt_succ_diag_r _) X). lia.
+Qed.
